@@ -159,7 +159,9 @@ func covGuided(cfg *vh.Config, res *vh.Result, corpus []string) []covInput {
 	budget := cfg.Scale(150, 1<<30)
 	var out []covInput
 	for _, k := range ordered {
-		e := cfg.Tier == "thorough" || (budget > 0 && len(k.src) <= 600)
+		// long inputs go through the oracle only (the 10,001-deep array of the pinned corpus is far beyond what the
+		// model evaluates in Coq in reasonable time; stream 4c emits the 1,500-deep one)
+		e := budget > 0 && len(k.src) <= cfg.Scale(600, 4000)
 		if e {
 			budget--
 			res.Count("covguided_emitted")
